@@ -109,10 +109,10 @@ def run(ctx):
     # ---------------------------------------------------------------- 2. the model
     invs = "".join(f"INVARIANT {i}\n" for i in ("NoDeadlock", "ExactlyOnce", "NoPartial", "RegisteredImpliesBuilt", "LoadedImpliesRegistered", "PublishedImpliesFull", "LockDiscipline"))
 
-    def cfg(name, threads, ops, variant, lazyset):
+    def cfg(name, threads, ops, variant, lazyset, view=False):
         p = os.path.join(ctx.work, name)
         with open(p, "w") as f:
-            f.write(f'CONSTANTS\n  Threads = {threads}\n  Dialects = {{"d1", "d2"}}\n  Deps <- DepsC\n  LazyInBody = {lazyset}\n  OpsOf <- {ops}\n  Variant = "{variant}"\n  defaultInitValue = "dflt"\nSPECIFICATION Spec\n{invs}')
+            f.write(f'CONSTANTS\n  Threads = {threads}\n  Dialects = {{"d1", "d2"}}\n  Deps <- DepsC\n  LazyInBody = {lazyset}\n  OpsOf <- {ops}\n  Variant = "{variant}"\n  defaultInitValue = "dflt"\nSPECIFICATION Spec\n{invs}' + ("VIEW NoHist\n" if view else ""))
         return p
 
     lazyset = '{"d1"}' if lazy else "{}"
@@ -123,7 +123,7 @@ def run(ctx):
     if res.violated and not model_deadlock:
         raise MachineryError(f"LazyImport violates {res.violated} for the measured constants")
     if ctx.thorough:
-        c3 = cfg("lazy_code3.cfg", '{"A", "B", "C"}', "Ops3", "code", lazyset.replace("d1", "d2"))
+        c3 = cfg("lazy_code3.cfg", '{"A", "B", "C"}', "Ops3", "code", lazyset.replace("d1", "d2"), view=True)
         r3 = tlc.run("MCLazy", c3, ctx.work, workers=16, timeout_s=3000)
         ctx.model(r3, "LazyImport", c3, "3 threads x {attr, get, gen} on one module + optimizer exports")
         model_deadlock |= "NoDeadlock" in r3.violated
